@@ -68,9 +68,12 @@ def toVarIns (labels : List Nat) : List Sx → Option (List VarB.VarIns)
   | ins :: rest =>
     match ins with
     | .l [.s "bin", .n o, .n a, .n b] =>
+      -- only the four overloaded binary operators of the test signature exist (add, mul, and, xor)
+      if !(o == 0 || o == 1 || o == 6 || o == 7) then none else
       let rl := binResLabel o (labels.getD a 0) (labels.getD b 0)
       (toVarIns (labels ++ [rl]) rest).map (VarB.VarIns.op o [a, b] [rl] :: ·)
     | .l [.s "un", .n o, .n a] =>
+      if !(o == 2 || o == 8) then none else
       let rl := labels.getD a 0
       (toVarIns (labels ++ [rl]) rest).map (VarB.VarIns.op o [a] [rl] :: ·)
     | .l [.s "op", .n lab, args, .n r] =>
